@@ -165,7 +165,7 @@ def generic_check(pid, level, tier, seed, rule, streams, coq=True, checker_cmd=N
             ck.broken = ck.broken[:nb] + [b for b in ck.broken[nb:] if "_escalated" not in b]
     if extra:
         extra(ck, tier, seed)
-    if coq and coqchk and tier == "thorough":
+    if coq and coqchk and tier == "thorough" and not os.environ.get("VERIF_NO_COQCHK"):
         rc, out, err = C.run("cd %s && coqchk -silent -o -R theories FG -R gen FG.gen -R properties FG.props FG.props.%s" % (C.COQ, pid), timeout=3600)
         ck.coverage["coqchk"] = (out + err)[-1500:]
         if rc == 124:
